@@ -609,7 +609,8 @@ RealVals(pt) ==
    Num(62, "hex"), Num(8, "flt"), Typ("i", 14), Typ("i", -6), Typ("y", 200), Typ("n", -600), Typ("f", 5),
    Txt(W_abc), Txt(W_red), Col(<<255, 1, 2, 3>>), Pt(1, 1)}
   \cup (IF pt.w = 64 THEN {Typ("d", 7), Typ("d", -3)} ELSE {})
-ChrVals == {Txt(W_A), Txt(W_r), Txt(W_sp_r), Txt(W_tilde), Txt(W_five), Rle(<<97, 3>>), Col(<<255, 1, 2, 3>>), Pt(1, 1)}
+ChrVals == {Txt(W_A), Txt(W_r), Txt(W_sp_r), Txt(W_tilde), Txt(W_five), Rle(<<97, 3>>), Col(<<255, 1, 2, 3>>), Pt(1, 1),
+            Typ("i", 2000), Typ("i", -2), TypN("i", <<65535, 65534>>), Typ("n", 600)}   \* beyond a character's range
 StrVals == {Rle(<<>>), Rle(<<97, 1>>), Rle(<<104, 1, 105, 1, 32, 1, 116, 1, 104, 1, 101, 1, 114, 1, 101, 1>>),
             Rle(<<120, 300>>), Rle(<<97, 5000, 98, 1, 32, 2, 99, 70>>), Txt(W_abc), Txt(W_h_red), Col(<<255, 1, 2, 3>>)}
 ColVals == {Txt(W_red), Txt(W_RED), Txt(W_Red), Txt(W_green), Txt(W_blue), Txt(W_cyan), Txt(W_magenta), Txt(W_yellow),
